@@ -1357,14 +1357,17 @@ class Container:
         # total activity open - make the rows dependent; the float noise in 1 - 0.999 would let the solver return arbitrary
         # positive amounts. (Rows and columns are brought to the order of one first: moles next to activity units, traces
         # next to kilograms say nothing about dependence.)
-        system = a[:n + 1].copy()
-        for _ in range(3):
-            largest = numpy.abs(system).max(axis=1)
-            system /= numpy.where(largest > 0, largest, 1.)[:, None]
-            largest = numpy.abs(system).max(axis=0)
-            system /= numpy.where(largest > 0, largest, 1.)
-        if not numpy.linalg.cond(system) < 1e12:
-            raise ValueError("Solution is impossible to create. (The stated values do not determine the amounts.)")
+        # (... of concentrations and a total: with stated quantities a trace solute listed first makes its own two rows - 'x is
+        # 1e-14 of the rest' and 'x is so much' - look alike under any scaling of this kind, and they are not)
+        if quantity is None:
+            system = a[:n + 1].copy()
+            for _ in range(3):
+                largest = numpy.abs(system).max(axis=1)
+                system /= numpy.where(largest > 0, largest, 1.)[:, None]
+                largest = numpy.abs(system).max(axis=0)
+                system /= numpy.where(largest > 0, largest, 1.)
+            if not numpy.linalg.cond(system) < 1e12:
+                raise ValueError("Solution is impossible to create. (The stated values do not determine the amounts.)")
         xs = numpy.linalg.solve(a[:n + 1], b[:n + 1])
         # a solute whose quantity is stated has that quantity: taking it out of the solver's result again would bring in
         # the cancellation error of (total - everything else), which for a trace in a large total is the whole amount
